@@ -7,6 +7,8 @@ def make_jobs(ctx, n_defs, n_points, want, **genkw):
     jobs, meta = [], []
     fixed = [(d, M.function_coverage_points(d), {}) for d in M.function_coverage_definitions()]
     fixed.append((M.signed_zero_definition(), M.signed_zero_points(), {}))
+    lic = M.large_int_calibration_definition()
+    fixed.append((lic, [{"dt": 0.125, "state": {"w": 0.5, "s": 0.25}, "control": {}}, {"dt": 0.5, "state": {"w": -1.5, "s": 1.0}, "control": {}}], {}))
     fixed.append((M.assumption_twin_definition(), M.assumption_twin_points(), {"warmup_assumptions": {"positive": True}}))
     for k in range(n_defs):
         if k < len(fixed):
